@@ -364,6 +364,15 @@ func runC06(r *report.Run) {
 		depth = 5
 	}
 	variants := asmVariants()
+	// long programs (120 and 300 calls) under every variant
+	for _, v := range variants {
+		for salt, n := range []int{120, 300} {
+			ops := asmLongProgram(n, salt)
+			if d := c06History(v, 16384, ops); d != "" {
+				r.ViolationSized("unexplained:finalize", fmt.Sprintf("%+v long program (%d calls, salt %d): %s", v, n, salt, d), asmHistory{Variant: v, Ops: opNames(ops), Capacity: 16384}, n)
+			}
+		}
+	}
 	hist, trans, _ := asmHistorySearch(depth, variants, func(v asmVariant, al []asmOp, idx []int) (string, string, int, *asmHistory) {
 		ops := make([]asmOp, len(idx))
 		for i, k := range idx {
@@ -406,6 +415,20 @@ func runC06(r *report.Run) {
 					}
 				}
 			}
+		}
+	}
+	// many references to one label (reference lists growing past several capacity steps, counts above 255)
+	for _, v := range variants {
+		if v.BaseSet && v.Base != 0x008000 {
+			continue
+		}
+		for _, refs := range []int{9, 17, 33, 60} {
+			for _, d := range []int{0, 1, 7} {
+				dist = append(dist, c06Dist{v, "BNE", d, refs, "", 0}, c06Dist{v, "BRA", -2 - d, refs, "unresolved", 0})
+			}
+		}
+		for _, refs := range []int{9, 17, 33, 257, 300} {
+			dist = append(dist, c06Dist{v, "JMP", 5, refs, "", 0}, c06Dist{v, "JMP", -8, refs, "out-of-range", 0})
 		}
 	}
 	// other label names around both ends of the range
